@@ -405,9 +405,22 @@ def const_eval(t: T, env: Optional[Dict[T, object]] = None):
             return "".join(str(ev(a)) for a in x.args)
         if x.op == "call":
             n = tm.callee_name(x) or ""
+            if n == "builtins.isinstance" and len(x.args[1]) == 2:
+                ty = x.args[1][1]
+                names = [t_.args[0] for t_ in (
+                    ty.args if ty.op == "tuple" else (ty,))
+                    if t_.op in ("global", "cls")]
+                pyt = {"builtins.str": str, "builtins.bool": bool,
+                       "builtins.int": int, "builtins.float": float,
+                       "builtins.list": list, "builtins.tuple": tuple,
+                       "builtins.dict": dict}
+                if names and all(n_ in pyt for n_ in names):
+                    return isinstance(ev(x.args[1][0]), tuple(pyt[n_]
+                                                     for n_ in names))
             args = [ev(a) for a in x.args[1]]
             if n == "builtins.len":
                 return len(args[0])
+
             if n in ("builtins.str", "builtins.int", "builtins.bool"):
                 return {"builtins.str": str, "builtins.int": int,
                         "builtins.bool": bool}[n](*args)
